@@ -722,7 +722,17 @@ pub fn generate(seed: u64, knobs: &Knobs) -> C10Scenario {
                 if world.input_is_file || !sim {
                     continue;
                 }
-                let dirs = world.dirs_with_sources();
+                let mut dirs = world.dirs_with_sources();
+                // ... or a directory that holds nothing but required data files
+                for d in &world.data {
+                    let dir = gen::parent(&d.0).to_owned();
+                    if dir.len() > world.input.len()
+                        && dir.starts_with(&world.input)
+                        && !dirs.contains(&dir)
+                    {
+                        dirs.push(dir);
+                    }
+                }
                 if dirs.is_empty() {
                     continue;
                 }
